@@ -102,3 +102,46 @@ def _(c):
               " exists(lambda j: 0 <= j and j < len(raw_vals) and mem(o, raw_vals[j])), 'obj')", name="members_are_the_members_of_the_arguments")
     c.ensures("all(not union_like(m) for m in self.vals)", name="never_nested")
     c.ensures("all(exists(lambda j: 0 <= j and j < len(raw_vals) and flat_member(m, raw_vals[j])) for m in self.vals)", name="members_come_from_the_arguments")
+
+
+# ---- substitution is structure preserving (each class re-builds itself from its substituted parts and keeps its own flags) ----
+_SUBST = lambda k: (k.param("self", "val"), k.param("m", "val"), k.returns("obj:Value"), setattr(k, "functional", True), setattr(k, "fn_name", "substitute_typevars"))
+
+
+@contract("pyanalyze.value.CallableValue.substitute_typevars", props=P)
+def _(c):
+    c.returns("val")
+    c.fieldspec("signature", "val"); c.fieldspec("typ", "val")
+    c.callee("self.signature.substitute_typevars", lambda k: (k.param("self", "val"), k.param("m", "val"), k.returns("val"), setattr(k, "functional", True), setattr(k, "fn_name", "Signature.substitute_typevars")))
+    c.callee("CallableValue", lambda k: (k.param("sig", "val"), k.param("fallback", "val"), k.returns("obj:CallableValue"),
+                                         k.ensures("result.signature is sig and result.typ is fallback", name="constructor_stores_its_arguments")))
+    c.ensures("isa(result, CallableValue) and result.typ is self.typ and same(result.signature, self.signature.substitute_typevars(typevars))",
+              name="keeps_the_fallback_type_and_substitutes_in_the_signature")
+    c.assume("CallableValue.__init__(signature, fallback) stores both (three-line constructor; default fallback collections.abc.Callable)")
+
+
+@contract("pyanalyze.value.SubclassValue.substitute_typevars", props=P)
+def _(c):
+    c.returns("val")
+    c.fieldspec("typ", "val"); c.fieldspec("exactly", "bool")
+    c.callee("self.typ.substitute_typevars", _SUBST)
+    c.callee("self.make", lambda k: (k.param("self", "val"), k.param("origin", "val"), k.param("exactly", "bool"), k.returns("val"), setattr(k, "functional", True), setattr(k, "fn_name", "SubclassValue.make")))
+    c.ensures("same(result, self.make(self.typ.substitute_typevars(typevars), exactly=self.exactly))", name="keeps_exactness_and_substitutes_in_the_class")
+
+
+@contract("pyanalyze.value.TypeVarValue.substitute_typevars", props=P)
+def _(c):
+    c.param("typevars", "dict[val,val]")
+    c.returns("val")
+    c.fieldspec("typevar", "val")
+    c.ensures("implies(self.typevar in typevars, same(result, typevars[self.typevar]))", name="a_mapped_type_variable_is_replaced_by_its_image")
+    c.ensures("implies(self.typevar not in typevars, result is self)", name="an_unmapped_type_variable_is_left_alone")
+
+
+@contract("pyanalyze.value.MultiValuedValue.substitute_typevars", props=P)
+def _(c):
+    c.param("typevars", "val")
+    c.returns("val")
+    c.callee("MultiValuedValue", lambda k: (k.param("raw_vals", "seq"), k.returns("obj:MultiValuedValue"), setattr(k, "functional", True), setattr(k, "fn_name", "new_MultiValuedValue")))
+    c.ensures("implies(len(self.vals) == 0 or not truthy(typevars), result is self)", name="nothing_to_substitute")
+    c.ensures("implies(len(self.vals) > 0 and truthy(typevars), isa(result, MultiValuedValue))", name="a_union_is_rebuilt_through_the_flattening_constructor")
